@@ -3,10 +3,12 @@ package rules
 import (
 	"fmt"
 	"go/ast"
+	"go/token"
 	"strings"
 
 	"verif/checker/internal/core"
 	"verif/checker/internal/ctx"
+	"verif/checker/internal/tmpl"
 )
 
 // Rules added after the fourth round of seeded changes.
@@ -138,8 +140,10 @@ func ruleC05EffectsWalk(c *ctx.Ctx, r *core.Reporter) {
 			}
 			n++
 			okPrev := false
-			if i > 0 && len(findGoPattern(&ast.BlockStmt{List: []ast.Stmt{list[i-1]}}, `µv.hasSideEffect = true`)) > 0 {
-				okPrev = true
+			if i > 0 {
+				if as, isAs := list[i-1].(*ast.AssignStmt); isAs && len(as.Lhs) == 1 && len(as.Rhs) == 1 && strings.HasSuffix(exprStr(as.Lhs[0]), ".hasSideEffect") && exprStr(as.Rhs[0]) == "true" {
+					okPrev = true
+				}
 			}
 			for _, is := range enclosingIfs(fd.Body, ret.Pos()) {
 				if hasGoPatternExpr(is.Cond, `µv.hasSideEffect`) {
@@ -215,4 +219,397 @@ func ruleC02ArgOrder(c *ctx.Ctx, r *core.Reporter) {
 		}
 	}
 	r.Check(uses, "all-arguments-saved", c.Pos(ta.Pos()), "under that flag every non-constant argument is stored in a fresh _arg temporary — independently of the argument's position")
+}
+
+// ruleC15KeyConverted: the operand handed to <keyType>.keyFor(...) has been converted to the map's key
+// type first (implicit conversion; for an interface-keyed map this boxes the value, so that keyFor sees
+// the dynamic type). A raw operand makes delete/lookup compute a different key than the store did.
+func ruleC15KeyConverted(c *ctx.Ctx, r *core.Reporter) {
+	r.Begin("C15.key-converted", "F-KEY", "every expression spliced into <key type>.keyFor(…) by the compiler went through translateImplicitConversion[WithCloning](…, <the map's key type>) — in map literals, lookups, stores and delete alike", 3)
+	n := 0
+	for _, t := range usableTemplates(c) {
+		if t.Role != tmpl.RoleSink {
+			continue
+		}
+		fd := c.FuncDecl("compiler", t.Func)
+		if fd == nil {
+			continue
+		}
+		toks := t.Tokens
+		args := t.FmtArgs()
+		for i, tk := range toks {
+			if tk.Kind != tmpl.TIdent || tk.Text != "keyFor" || identRole(toks, i) != roleProp {
+				continue
+			}
+			// keyFor ( <hole> )
+			if i+2 >= len(toks) || toks[i+2].Kind != tmpl.THole {
+				continue
+			}
+			hole := t.Holes[toks[i+2].Holes[0]]
+			if hole.Index < 0 || hole.Index >= len(args) {
+				continue
+			}
+			n++
+			arg := args[hole.Index]
+			ok, how := convertedToKeyType(fd, arg, 0)
+			if !ok {
+				// a JavaScript temporary: `<tmp> = <converted key>; … keyFor(<tmp>)` inside the same template
+				for j := 0; j+3 < len(toks); j++ {
+					if toks[j].Kind == tmpl.THole && toks[j+1].Kind == tmpl.TPunct && toks[j+1].Text == "=" && toks[j+2].Kind == tmpl.THole {
+						ha, hb := t.Holes[toks[j].Holes[0]], t.Holes[toks[j+2].Holes[0]]
+						if ha.Index >= 0 && ha.Index < len(args) && hb.Index >= 0 && hb.Index < len(args) && exprStr(args[ha.Index]) == exprStr(arg) {
+							ok, how = convertedToKeyType(fd, args[hb.Index], 0)
+							how = exprStr(arg) + " = " + how
+						}
+					}
+				}
+			}
+			r.Check(ok, "key-converted:"+t.Func+"["+strings.Join(t.CasePath, "/")+"]", c.Pos(t.Pos), fmt.Sprintf("the operand of keyFor is the key converted to the map's key type (%s)", how))
+		}
+	}
+	r.Check(n >= 3, "key-converted:sites", "compiler", fmt.Sprintf("%d keyFor operands examined", n))
+}
+
+// convertedToKeyType: e is translateImplicitConversion[WithCloning](x, K) (possibly .String()), or a local
+// variable whose definitions are (e.g. a temporary holding the converted key).
+func convertedToKeyType(fd *ast.FuncDecl, e ast.Expr, depth int) (bool, string) {
+	e = ast.Unparen(e)
+	if call, ok := e.(*ast.CallExpr); ok {
+		if sel, ok := call.Fun.(*ast.SelectorExpr); ok {
+			switch sel.Sel.Name {
+			case "translateImplicitConversion", "translateImplicitConversionWithCloning":
+				if len(call.Args) == 2 && isMapKeyType(fd, call.Args[1]) {
+					return true, exprStr(e)
+				}
+				return false, "converted to something that is not the map's key type: " + exprStr(e)
+			case "String":
+				return convertedToKeyType(fd, sel.X, depth)
+			}
+		}
+	}
+	if id, ok := e.(*ast.Ident); ok && depth < 3 {
+		found, all, last := false, true, ""
+		ast.Inspect(fd.Body, func(n ast.Node) bool {
+			as, ok := n.(*ast.AssignStmt)
+			if !ok {
+				return true
+			}
+			for i, l := range as.Lhs {
+				if li, ok := l.(*ast.Ident); ok && li.Name == id.Name && i < len(as.Rhs) && len(as.Lhs) == len(as.Rhs) {
+					found = true
+					okr, how := convertedToKeyType(fd, as.Rhs[i], depth+1)
+					last = how
+					if !okr {
+						all = false
+					}
+				}
+			}
+			return true
+		})
+		if found {
+			return all, id.Name + " := " + last
+		}
+		// a JS temporary that was assigned the converted key in an earlier template hole of the same call
+		return false, "local " + id.Name + " without a converting definition"
+	}
+	return false, "raw operand " + exprStr(e)
+}
+
+// ruleSubarrayOffset: <s>.$array.subarray(a, b) addresses the backing array, so both ends are relative to <s>.$offset.
+func ruleSubarrayOffset(c *ctx.Ctx, r *core.Reporter) {
+	r.Begin("C14.subarray", "F-PAIR", "every <s>.$array.subarray(from, to) in the prelude adds <s>.$offset to both ends (a slice is a window into its backing array)", 2)
+	if !needPrelude(c, r) {
+		return
+	}
+	n := 0
+	for _, f := range c.PreludeList() {
+		f.AST.Walk(func(x *ctx.JSNode) bool {
+			if !x.Is("CallExpression") || !x.N("callee").Is("MemberExpression") || x.N("callee").MemberName() != "subarray" {
+				return true
+			}
+			arr := x.N("callee").N("object")
+			if !arr.Is("MemberExpression") || arr.MemberName() != "$array" {
+				return true
+			}
+			owner := squash(arr.N("object").Src())
+			fn := x.EnclosingFunc()
+			inits := map[string][]*ctx.JSNode{}
+			if fn != nil {
+				inits = localInits(fn)
+			}
+			for k, a := range x.L("arguments") {
+				n++
+				mentions := offsetRelative(a, owner, inits, 0)
+				r.Check(mentions, fmt.Sprintf("subarray-offset:%s#%d:arg%d", ctx.JSFuncName(fn), n, k), x.Pos(), fmt.Sprintf("argument %d of %s.$array.subarray(…) is relative to %s.$offset: `%s`", k, owner, owner, squash(a.Src())))
+			}
+			return true
+		})
+	}
+	r.Check(n >= 4, "subarray-offset:sites", "compiler/prelude", fmt.Sprintf("%d subarray bounds examined", n))
+}
+
+// ruleC13Ldexp: the Math.pow fast path of math.Ldexp must exclude every exponent whose power of two is
+// not a finite, normal float64: 2^1024 is +Inf.
+func ruleC13Ldexp(c *ctx.Ctx, r *core.Reporter) {
+	r.Begin("C13.ldexp", "F-CLASS", "the fast path of the math.Ldexp overlay (frac * Math.pow(2, exp)) is not taken for exp = 1024 (2^1024 overflows to +Inf) and is taken for the ordinary exponents", 2)
+	nat := c.Natives()
+	var fd *ast.FuncDecl
+	for _, f := range nat.PkgFiles("math") {
+		if f.Test {
+			continue
+		}
+		for _, d := range f.AST.Decls {
+			if x, ok := d.(*ast.FuncDecl); ok && x.Recv == nil && x.Name.Name == "Ldexp" && x.Body != nil {
+				fd = x
+			}
+		}
+	}
+	if fd == nil {
+		r.Info("ldexp", nativesRootRel+"/math", "math.Ldexp is not overridden")
+		return
+	}
+	// the if statement whose body calls math.Call("pow", …)
+	var guard *ast.IfStmt
+	ast.Inspect(fd.Body, func(n ast.Node) bool {
+		if is, ok := n.(*ast.IfStmt); ok && guard == nil && strings.Contains(printNode(nat.Fset, is.Body), `"pow"`) {
+			guard = is
+		}
+		return true
+	})
+	if guard == nil {
+		r.Undecided("ldexp:guard", nat.Pos(c, fd.Pos()), "no guarded Math.pow fast path found")
+		return
+	}
+	expName := ""
+	if len(fd.Type.Params.List) >= 1 {
+		last := fd.Type.Params.List[len(fd.Type.Params.List)-1]
+		if len(last.Names) > 0 {
+			expName = last.Names[len(last.Names)-1].Name
+		}
+	}
+	eval := func(v int64) (bool, bool) { return evalIntCond(guard.Cond, expName, v) }
+	for _, tc := range []struct {
+		v    int64
+		want bool
+		why  string
+	}{{1024, false, "2^1024 is +Inf"}, {1023, true, "2^1023 is the largest power of two"}, {0, true, "the identity"}, {-1022, true, "2^-1022 is the smallest normal power of two"}, {2000, false, "far out of range"}, {-2000, false, "far out of range"}} {
+		got, ok := eval(tc.v)
+		if !ok {
+			r.Undecided(fmt.Sprintf("ldexp:fast-path@%d", tc.v), nat.Pos(c, guard.Pos()), "cannot evaluate the guard `"+printNode(nat.Fset, guard.Cond)+"`")
+			continue
+		}
+		r.Check(got == tc.want, fmt.Sprintf("ldexp:fast-path@%d", tc.v), nat.Pos(c, guard.Pos()), fmt.Sprintf("guard `%s` at exp = %d is %v (%s)", printNode(nat.Fset, guard.Cond), tc.v, got, tc.why))
+	}
+}
+
+// evalIntCond evaluates a condition made of comparisons between the variable and integer literals, && and ||.
+func evalIntCond(e ast.Expr, v string, val int64) (bool, bool) {
+	num := func(x ast.Expr) (int64, bool) {
+		x = ast.Unparen(x)
+		if id, ok := x.(*ast.Ident); ok && id.Name == v {
+			return val, true
+		}
+		neg := false
+		if u, ok := x.(*ast.UnaryExpr); ok && u.Op == token.SUB {
+			neg = true
+			x = u.X
+		}
+		if bl, ok := x.(*ast.BasicLit); ok && bl.Kind == token.INT {
+			var n int64
+			if _, err := fmt.Sscan(bl.Value, &n); err == nil {
+				if neg {
+					n = -n
+				}
+				return n, true
+			}
+		}
+		return 0, false
+	}
+	switch x := ast.Unparen(e).(type) {
+	case *ast.BinaryExpr:
+		switch x.Op {
+		case token.LAND, token.LOR:
+			l, ok1 := evalIntCond(x.X, v, val)
+			rr, ok2 := evalIntCond(x.Y, v, val)
+			if x.Op == token.LAND {
+				return l && rr, ok1 && ok2
+			}
+			return l || rr, ok1 && ok2
+		case token.LSS, token.LEQ, token.GTR, token.GEQ, token.EQL, token.NEQ:
+			l, ok1 := num(x.X)
+			rr, ok2 := num(x.Y)
+			if !ok1 || !ok2 {
+				return false, false
+			}
+			switch x.Op {
+			case token.LSS:
+				return l < rr, true
+			case token.LEQ:
+				return l <= rr, true
+			case token.GTR:
+				return l > rr, true
+			case token.GEQ:
+				return l >= rr, true
+			case token.EQL:
+				return l == rr, true
+			default:
+				return l != rr, true
+			}
+		}
+	}
+	return false, false
+}
+
+// isMapKeyType: e is `<map type>.Key()` or a local assigned from it.
+func isMapKeyType(fd *ast.FuncDecl, e ast.Expr) bool {
+	if strings.HasSuffix(exprStr(e), ".Key()") {
+		return true
+	}
+	if id, ok := e.(*ast.Ident); ok {
+		found := false
+		ast.Inspect(fd.Body, func(n ast.Node) bool {
+			if as, ok := n.(*ast.AssignStmt); ok && len(as.Lhs) == 1 && len(as.Rhs) == 1 {
+				if l, ok := as.Lhs[0].(*ast.Ident); ok && l.Name == id.Name && strings.HasSuffix(exprStr(as.Rhs[0]), ".Key()") {
+					found = true
+				}
+			}
+			return true
+		})
+		return found
+	}
+	return false
+}
+
+// offsetRelative: the expression is a position in the backing array of slice `owner`: it adds
+// owner.$offset on every path (both operands of Math.min/Math.max, one side of + or -).
+func offsetRelative(e *ctx.JSNode, owner string, inits map[string][]*ctx.JSNode, depth int) bool {
+	e = unparen(e)
+	switch {
+	case e.Is("MemberExpression"):
+		return e.MemberName() == "$offset" && squash(e.N("object").Src()) == owner
+	case e.Is("Identifier"):
+		if depth > 3 || len(inits[e.IdentName()]) == 0 {
+			return false
+		}
+		for _, in := range inits[e.IdentName()] {
+			if !offsetRelative(in, owner, inits, depth+1) {
+				return false
+			}
+		}
+		return true
+	case e.Is("BinaryExpression") && (e.S("operator") == "+" || e.S("operator") == "-"):
+		return offsetRelative(e.N("left"), owner, inits, depth) || (e.S("operator") == "+" && offsetRelative(e.N("right"), owner, inits, depth))
+	case e.Is("CallExpression"):
+		cal := e.N("callee")
+		if cal.Is("MemberExpression") && cal.N("object").IdentName() == "Math" && (cal.MemberName() == "min" || cal.MemberName() == "max") {
+			for _, a := range e.L("arguments") {
+				if !offsetRelative(a, owner, inits, depth) {
+					return false
+				}
+			}
+			return len(e.L("arguments")) > 0
+		}
+	}
+	return false
+}
+
+// ruleC20ModTime: the staleness bound handed to the cache covers every source the package is built from.
+func ruleC20ModTime(c *ctx.Ctx, r *core.Reporter) {
+	r.Begin("C20.modtime", "F-KEY", "PackageData.FileModTime takes the newest of the Go files (by their time stamp in the directory listing; an unknown file means 'now') and of the .inc.js files (by the time stamp recorded when they were loaded)", 3)
+	fd := c.FuncDecl("build", "PackageData.FileModTime")
+	if fd == nil {
+		r.Undecided("FileModTime", "build/build.go", "not found")
+		return
+	}
+	recv := ""
+	if fd.Recv != nil && len(fd.Recv.List[0].Names) == 1 {
+		recv = fd.Recv.List[0].Names[0].Name
+	}
+	// JS files: their own ModTime raises the bound
+	js := false
+	for _, m := range findGoPattern(fd.Body, `for _, µf := range µp.JSFiles { if µf.ModTime.After(µn) { µn = µf.ModTime } }`) {
+		if m.Env["µp"] == recv {
+			js = true
+		}
+	}
+	r.Check(js, "modtime:js-files", c.Pos(fd.Pos()), "every .inc.js file raises the bound with the modification time it was loaded with")
+	// Go files: looked up by the same key the listing was stored under, a miss is 'now'
+	keyOK, missOK := false, false
+	var mapName string
+	for _, m := range findGoPattern(fd.Body, `for _, µf := range µfiles { µm[µf.Name()] = µf.ModTime() }`) {
+		mapName = m.Env["µm"]
+	}
+	for _, m := range findGoPattern(fd.Body, `for _, µg := range µp.GoFiles { µt, µok := µm[µg]; if !µok { µµmiss; return time.Now() }; if µt.After(µn) { µn = µt } }`) {
+		if m.Env["µp"] == recv && m.Env["µm"] == mapName && mapName != "" {
+			keyOK, missOK = true, true
+		}
+	}
+	r.Check(keyOK, "modtime:go-files", c.Pos(fd.Pos()), "every Go file raises the bound with its time stamp from the directory listing, looked up by base name as stored")
+	r.Check(missOK, "modtime:miss-is-now", c.Pos(fd.Pos()), "a source file without a time stamp makes the package look modified now (never silently older)")
+}
+
+// ruleC16WriteJS: the minified (or plain) JavaScript of an included .inc.js file is forwarded exactly as
+// esbuild produced it: its trailing line break terminates a trailing line comment (legal comments are
+// moved to the end of the chunk).
+func ruleC16WriteJS(c *ctx.Ctx, r *core.Reporter) {
+	r.Begin("C16.writejs", "F-KEY", "Filter.WriteJS hands esbuild's output to the writer unmodified", 1)
+	fd := c.FuncDecl("internal/sourcemapx", "Filter.WriteJS")
+	if fd == nil {
+		r.Undecided("WriteJS", "internal/sourcemapx/filter.go", "not found")
+		return
+	}
+	res := ""
+	for _, m := range findGoPattern(fd.Body, `µres := api.Transform(µsrc, µopts)`) {
+		res = m.Env["µres"]
+	}
+	last := fd.Body.List[len(fd.Body.List)-1]
+	ok := false
+	for _, m := range findGoPattern(&ast.BlockStmt{List: []ast.Stmt{last}}, `return µf.Write(µres.Code)`) {
+		if m.Env["µres"] == res && res != "" {
+			ok = true
+		}
+	}
+	r.Check(ok, "writejs:output-verbatim", c.Pos(fd.Pos()), "the last statement of WriteJS is `return f.Write(<transform result>.Code)`: no trimming or rewriting of the transformed code (a trailing `//!` legal comment would swallow the code that follows)")
+}
+
+// ruleRawBackingArray: handing out <s>.$array itself instead of a window is only right when the slice
+// covers the whole array, which needs a test of <s>.$length.
+func ruleRawBackingArray(c *ctx.Ctx, r *core.Reporter) {
+	r.Begin("C11.raw-array", "F-KEY", "a prelude function returns the backing array <s>.$array of a slice as a whole only under a test of <s>.$length (offset and capacity alone do not say how many elements the slice has)", 1)
+	if !needPrelude(c, r) {
+		return
+	}
+	n := 0
+	for _, f := range c.PreludeList() {
+		f.AST.Walk(func(x *ctx.JSNode) bool {
+			if !x.Is("ReturnStatement") || x.N("argument") == nil {
+				return true
+			}
+			a := unparen(x.N("argument"))
+			if !a.Is("MemberExpression") || a.MemberName() != "$array" || !a.N("object").Is("Identifier") {
+				return true
+			}
+			owner := a.N("object").IdentName()
+			fn := x.EnclosingFunc()
+			isParam := false
+			for _, p := range funcParams(fn) {
+				if p == owner {
+					isParam = true
+				}
+			}
+			if !isParam {
+				return true
+			}
+			n++
+			guarded := false
+			for p := x.Parent; p != nil && p != fn; p = p.Parent {
+				if p.Is("IfStatement") && strings.Contains(squash(p.N("test").Src()), owner+".$length") {
+					guarded = true
+				}
+			}
+			r.Check(guarded, fmt.Sprintf("raw-array:%s#%d", ctx.JSFuncName(fn), n), x.Pos(), fmt.Sprintf("`return %s.$array` is guarded by a test of %s.$length", owner, owner))
+			return true
+		})
+	}
+	r.Check(n >= 1, "raw-array:sites", "compiler/prelude", fmt.Sprintf("%d returns of a raw backing array examined", n))
 }
